@@ -152,9 +152,11 @@ def check(src, rep):
     from sa.abseval import AbsEval, AObj, Sym
     from sa.decoders import normaliser_workers, obis_hook
     from sa.sveval import Res
-    ws = normaliser_workers(M, MOD)
-    rep.require(len(ws) == 1, f"cannot find the one list-items normaliser reached from the public normalize_* functions (found {[w.name for w in ws]})")
-    fn = ws[0]
+    fn = M.funcs.get("aidon.normalize_parsed_notification")  # the public normaliser of a parsed body: whatever helpers it uses are followed by the interpreter
+    rep.require(fn is not None, "anchor vanished: aidon.normalize_parsed_notification")
+
+    def body_of(items_):
+        return AObj("Container", {"list_items": items_, "length": len(items_)})
     try:
         name_map = ce.module_value("obis_map", "obis_name_map")
         MAN = ce.module_value("obis_map", "FIELD_METER_MANUFACTURER")
@@ -180,7 +182,7 @@ def check(src, rep):
         cdr = ".".join(c.split(".")[2:5])
         want[name_map.get(cdr, cdr)] = val
     A = AbsEval(M, hooks={"Obis.from_string": obis_hook}, unequal=[(U, V)])
-    res = A.apply(fn, [items])
+    res = A.apply(fn, [body_of(items)])
     n_store = 0
     bad = 0
     if res[0] == "undecided":
@@ -224,7 +226,7 @@ def check(src, rep):
     if not bad and res[0] == "value":
         items2 = [AObj("Container", {"obis": c, "content": content}) for c, content in zip([code(known[2]), code(known[0]), "1.1.250.251.252.255", code(known[1]), "0.0.1.0.0.255"],
                                                                                           [TXT, cases[0][2], cases[4][2], cases[1][2], cases[3][2]])]
-        res2 = A.apply(fn, [items2])
+        res2 = A.apply(fn, [body_of(items2)])
         want2 = {MAN: "Aidon", name_map[known[2]]: TXT, name_map[known[0]]: Res("float", V), "250.251.252": Res("float", V), name_map[known[1]]: U2, name_map.get("1.0.0", "1.0.0"): DT}
         if res2[0] != "value" or res2[1] != want2:
             bad += 1
